@@ -11,6 +11,7 @@ import AxVerif.Lemmas.Mem
 import AxVerif.Props.C08
 import AxVerif.Props.C10
 import AxVerif.Model.Machine
+import AxVerif.Lemmas.FrameMem
 namespace Ax.C09
 open Ax
 
@@ -200,6 +201,58 @@ theorem data_not_executable (m : Mem) (hm : m.WF) (hno : NoOverlap m) (start : N
       m ++ [{ name := name, start := start, len := data.length, data := data, access := PROT_READ ||| PROT_WRITE }] := by simp
   have hf := findArea_of_mem hno' hin (x := x) (by rw [contains_iff]; exact hx)
   exact fetch_denied _ x _ hf (by simp [hasPerm, PROT_READ, PROT_WRITE, PROT_EXEC])
+
+/-! ## Instruction level: every store of every instruction form -/
+
+/-- what one `MemStep` can do, given the invariants: layout, names and permissions stay, and every byte that differs
+    afterwards lies in memory that was writable -/
+theorem memStep_needs_W (m m' : Mem) (hm : m.WF) (hno : NoOverlap m) (h : MemStep m m') :
+    skeleton m' = skeleton m ∧ m'.WF ∧ NoOverlap m' ∧
+    (∀ x, permAt m' x = permAt m x) ∧
+    ∀ x, byteAt m' x ≠ byteAt m x → ∃ p, permAt m x = some p ∧ hasPerm p PROT_WRITE = true := by
+  have bytes : ∀ a bs, memWriteBytes m a bs = .ok m' →
+      skeleton m' = skeleton m ∧ m'.WF ∧ NoOverlap m' ∧ (∀ x, permAt m' x = permAt m x) ∧
+      ∀ x, byteAt m' x ≠ byteAt m x → ∃ p, permAt m x = some p ∧ hasPerm p PROT_WRITE = true := by
+    intro a bs hw
+    obtain ⟨hsk, hwf, _, hb⟩ := Ax.C08.write_spec m hm hno a bs m' hw
+    refine ⟨hsk, hwf, (Ax.C08.write_preserves m hm hno a bs m' hw).2, write_keeps_perms m hm hno a bs m' hw, ?_⟩
+    intro x hx
+    rw [hb x] at hx
+    by_cases hr : a ≤ x ∧ x < a + bs.length
+    · exact write_needs_W m hm hno a bs m' hw x hr.1 hr.2
+    · simp [hr] at hx
+  rcases h with rfl | ⟨n, a, v, h | ⟨bs, h⟩⟩
+  · exact ⟨rfl, hm, hno, fun _ => rfl, fun x hx => absurd rfl hx⟩
+  · unfold memWriteN at h
+    split at h
+    · cases h
+    · exact bytes a _ h
+  · exact bytes a bs h
+
+/-- **Every store an instruction performs needs write permission** — for all 312 forms at once: after a successful
+    instruction the area layout, names and permissions are unchanged, the invariants hold, and every byte that differs
+    lies in memory that was writable before.  Read-only data, code mapped R+X and unmapped addresses are therefore never
+    modified by any instruction. -/
+theorem exec_stores_need_W (hh : HasHooks) (i : Instr) (s s' : Machine) (hm : s.mem.WF) (hno : NoOverlap s.mem)
+    (h : exec hh i s = .ok s') :
+    skeleton s'.mem = skeleton s.mem ∧ s'.mem.WF ∧ NoOverlap s'.mem ∧
+    (∀ x, permAt s'.mem x = permAt s.mem x) ∧
+    ∀ x, byteAt s'.mem x ≠ byteAt s.mem x → ∃ p, permAt s.mem x = some p ∧ hasPerm p PROT_WRITE = true :=
+  memStep_needs_W s.mem s'.mem hm hno (exec_mem h)
+
+/-- corollary: a byte without write permission survives every instruction -/
+theorem exec_keeps_readonly (hh : HasHooks) (i : Instr) (s s' : Machine) (hm : s.mem.WF) (hno : NoOverlap s.mem)
+    (h : exec hh i s = .ok s') (x p : Nat) (hp : permAt s.mem x = some p) (hnw : hasPerm p PROT_WRITE = false) :
+    byteAt s'.mem x = byteAt s.mem x := by
+  by_cases hne : byteAt s'.mem x = byteAt s.mem x
+  · exact hne
+  exfalso
+  obtain ⟨q, hq, hw⟩ := (exec_stores_need_W hh i s s' hm hno h).2.2.2.2 x hne
+  rw [hp] at hq
+  simp only [Option.some.injEq] at hq
+  subst hq
+  rw [hnw] at hw
+  cases hw
 
 /-! ## Non-vacuity -/
 example : ∃ s, Machine.new Regs.zero [0x90, 0xc3] 0x1000 0x1000 = .ok s ∧ memWriteBytes s.mem 0x1000 [0] = .err ∧
